@@ -2,7 +2,7 @@
 """C13 -- drivers report RF and host-link failures only as documented errors."""
 import ast
 
-from ..model import norm, head, walk_no_nested, AnalysisError, FuncInfo, enclosing_stmt, ancestors
+from ..model import norm, head, walk_no_nested, AnalysisError, FuncInfo, enclosing_stmt, ancestors, live, last_live
 from ..cfg import cfg_of
 from ..resolve import Resolver, Ctx
 from ..escape import Escape, fmt_chain, items_sorted
@@ -165,18 +165,40 @@ def rule_mapping(report, prog):
     for q, want in specs:
         f = prog.func(q)
         got = {}
+        def exc_of(r):
+            return norm(r.exc.func) if isinstance(r.exc, ast.Call) else norm(r.exc)
         for h in [h for t in walk_no_nested(f.node) if isinstance(t, ast.Try) for h in t.handlers]:
             first_else = 'ELSE' if 'ELSE' not in got else 'ELSE2'
-            for st in h.body:
+            body = live(h.body)
+            for idx, st in enumerate(body):
                 if isinstance(st, ast.If):
                     r = [x for x in st.body if isinstance(x, ast.Raise)]
                     if r:
-                        got[norm(st.test)] = norm(r[0].exc.func) if isinstance(r[0].exc, ast.Call) else norm(r[0].exc)
+                        got[norm(st.test)] = exc_of(r[0])
                     r = [x for x in st.orelse if isinstance(x, ast.Raise)]
                     if r:
-                        got[first_else] = norm(r[0].exc.func) if isinstance(r[0].exc, ast.Call) else norm(r[0].exc)
+                        got[first_else] = exc_of(r[0])
                 elif isinstance(st, ast.Raise):
-                    got['FALL'] = norm(st.exc.func) if isinstance(st.exc, ast.Call) else norm(st.exc)
+                    # a raise that follows `if T: raise A` is the else arm of that test written without `else`
+                    prev = body[idx - 1] if idx else None
+                    if isinstance(prev, ast.If) and not prev.orelse and isinstance(last_live(prev.body), ast.Raise) and first_else not in got and \
+                            any(w in got for w in (norm(prev.test),)) and len([b for b in body if isinstance(b, ast.If)]) == 1 and 'FALL' not in want:
+                        got[first_else] = exc_of(st)
+                    else:
+                        got['FALL'] = exc_of(st)
+        # a two-armed decision spelled with the negative relation is the same decision: normalise to the positive relation
+        from ..canon import _negate
+        for h in [h for t in walk_no_nested(f.node) if isinstance(t, ast.Try) for h in t.handlers]:
+            ifs = [st for st in live(h.body) if isinstance(st, ast.If)]
+            if len(ifs) == 1 and isinstance(ifs[0].test, ast.Compare) and isinstance(ifs[0].test.ops[0], (ast.NotEq, ast.NotIn, ast.IsNot)):
+                neg = norm(ifs[0].test)
+                pos = norm(_negate(ifs[0].test))
+                other = [k for k in ('ELSE', 'ELSE2') if k in got]
+                # the else key that belongs to this handler is the last one assigned for it
+                if neg in got and other:
+                    ek = other[-1] if len(other) == 1 or neg not in list(got)[:list(got).index(other[0])] else other[-1]
+                    got[pos], got[ek] = got[ek], got[neg]
+                    del got[neg]
         report.check(got == want, 'C13-R2', key(q, 'status -> error class mapping'), f.loc(),
                      'error mapping of %s changed: %r (expected %r)' % (q, got, want))
     # pn53x handlers catch exactly Chipset.Error and IOError
